@@ -1491,7 +1491,7 @@ static void prop_inner(Tape &t, Ctx &c) {
         r -= e.weight;
     }
 }
-VF_TARGET("C13.bignum", prop, 1024, 60)
+VF_TARGET("C13.bignum", prop, 1024, 20)
 namespace vf {
 void vf_global_init(int, char **) {
     psCryptoOpen(PSCRYPTO_CONFIG);
